@@ -22,13 +22,14 @@ import Scico.Proofs.ProxL1L2C
 import Scico.Proofs.ProxCubic
 import Scico.Proofs.ProxNuclear
 import Scico.Proofs.ProxPhase
+import Scico.Proofs.ProxAxis
 
 set_option linter.unusedSectionVars false
 
 namespace Scico.Props.C02
 
 open Scico Scico.Prox Scico.ProxSpec Scico.ProxBridge Scico.ProxConvex Scico.ProxGroup Scico.ProxSep
-  Scico.ProxNonconvex Scico.ProxL1L2 Scico.ProxCubic Scico.ProxNuclear Scico.ProxPhase WithLp
+  Scico.ProxNonconvex Scico.ProxL1L2 Scico.ProxCubic Scico.ProxNuclear Scico.ProxPhase Scico.ProxAxis WithLp
 
 /-! ## generic theorems (any real inner-product space: ℝⁿ, ℂⁿ with `Re⟨·,·⟩`, block arrays) -/
 
@@ -145,6 +146,20 @@ theorem C02_l2 {lam : ℝ} (hlam : 0 < lam) (v : Fin n → ℝ) :
 /-- `L21Norm.prox` over an ARBITRARY grouping of the entries (any axis, any block structure) -/
 theorem C02_l21 {lam : ℝ} (hlam : 0 < lam) (grp : Fin n → ℕ) (v : Fin n → ℝ) :
     Cert Set.univ (l21Fn grp) lam (toE v) (toE (l21Prox grp v lam)) := cert_l21 grp v hlam
+
+/-- `L21Norm(l2_axis=axes).prox` on an N-d array of shape `shape` (row-major flattening): the labelling is computed by the
+    model (`axisGroup`), and `C02_l21_axis_groups` says which entries it groups -/
+theorem C02_l21_axes {lam : ℝ} (hlam : 0 < lam) (shape axes : List ℕ) (v : Fin n → ℝ) :
+    Cert Set.univ (l21Fn (fun i : Fin n => axisGroup shape axes i.val)) lam (toE v)
+      (toE (l21Prox (fun i : Fin n => axisGroup shape axes i.val) v lam)) := C02_l21 hlam _ v
+
+/-- **index-level grouping**: two flat entries of an array of shape `shape` (all dimensions positive) get the same label iff
+    their multi-indices (`unravelAt` = `np.unravel_index`) agree along every axis that `l2_axis` does NOT reduce — the
+    groups of `(|x|²).sum(axis=axes, keepdims=True)` -/
+theorem C02_l21_axis_groups (shape axes : List ℕ) (hpos : ∀ d, d < shape.length → 0 < shape.getD d 1) (i j : ℕ) :
+    axisGroup shape axes i = axisGroup shape axes j ↔
+      ∀ d, d < shape.length → d ∉ axes → unravelAt shape i d = unravelAt shape j d :=
+  axisGroup_eq_iff shape axes hpos i j
 
 /-- `HuberNorm` separable form, real input (`|v_i|` exactly at the threshold included) -/
 theorem C02_huber_sep {lam delta : ℝ} (hlam : 0 < lam) (hd : 0 < delta) (v : Fin n → ℝ) :
@@ -647,6 +662,8 @@ example : depCubicP (1 : ℝ) 1 0 (1 / 4) = 0 ∨ (1 / 10 ^ 7 : ℝ) < |depCubic
   have : depCubicP (1 : ℝ) 1 0 (1 / 4) = 1 := by simp [depCubicP, noNanDiv_eq]
   rw [this]; norm_num
 
+-- L21 on shape (2,3), l2_axis = 0: columns are the groups (entries 1 = (0,1) and 4 = (1,1) together, 1 and 2 apart)
+example : axisGroup [2, 3] [0] 1 = axisGroup [2, 3] [0] 4 ∧ axisGroup [2, 3] [0] 1 ≠ axisGroup [2, 3] [0] 2 := by decide
 end Examples
 
 end Scico.Props.C02
